@@ -18,6 +18,7 @@ import (
 	"encoding/json"
 	"fmt"
 	"os"
+	"sort"
 	"strings"
 	"time"
 
@@ -29,6 +30,7 @@ import (
 	"github.com/nyaruka/goflow/flows/engine"
 	"github.com/nyaruka/goflow/flows/resumes"
 	"github.com/nyaruka/goflow/flows/triggers"
+	gftest "github.com/nyaruka/goflow/test"
 
 	"verifharness/pkg/hx"
 )
@@ -439,6 +441,63 @@ func defAssetsWith(flowsJSON []any, more map[string]any) json.RawMessage {
 	return b
 }
 
+// ---- 4. a session without a contact ------------------------------------------------------------------------------
+
+// triggers.NewBuilder(env, flow, nil): the trigger's contact is optional (goflow's own TestTriggerSessionInitialization
+// builds such a trigger: "contact, environment and params are optional"), so a session without a contact is an input
+// the engine accepts; every action must then return normally (an error event, a skipped action - not a panic)
+const (
+	defTopicUUID = "472a7a73-96cb-4736-b567-056d987cc5b4"
+	defOptinUUID = "248be71d-78e9-4d71-a6c4-9981d369e5cb"
+)
+
+func noContactActions() map[string]map[string]any {
+	grp := map[string]any{"uuid": defGroupUUID, "name": "Testers"}
+	return map[string]map[string]any{
+		"send_msg":              {"type": "send_msg", "text": "hi @contact.name"},
+		"send_email":            {"type": "send_email", "addresses": []any{"bob@nyaruka.com"}, "subject": "s", "body": "hi @contact.name"},
+		"send_broadcast":        {"type": "send_broadcast", "text": "hi", "urns": []any{"tel:+12065551212"}},
+		"start_session":         {"type": "start_session", "flow": map[string]any{"uuid": uuidOf(kFlow, 1), "name": "F1"}, "groups": []any{grp}},
+		"set_contact_name":      {"type": "set_contact_name", "name": "Bob"},
+		"set_contact_language":  {"type": "set_contact_language", "language": "eng"},
+		"set_contact_field":     {"type": "set_contact_field", "field": map[string]any{"key": "x", "name": "X"}, "value": "M"},
+		"set_contact_status":    {"type": "set_contact_status", "status": "blocked"},
+		"set_contact_timezone":  {"type": "set_contact_timezone", "timezone": "Africa/Kigali"},
+		"set_contact_channel":   {"type": "set_contact_channel", "channel": map[string]any{"uuid": channelUUID, "name": "Twilio"}},
+		"add_contact_groups":    {"type": "add_contact_groups", "groups": []any{grp}},
+		"remove_contact_groups": {"type": "remove_contact_groups", "groups": []any{}, "all_groups": true},
+		"add_contact_urn":       {"type": "add_contact_urn", "scheme": "tel", "path": "+12065551212"},
+		"add_input_labels":      {"type": "add_input_labels", "labels": []any{map[string]any{"uuid": defLabelUUID, "name": "Spam"}}},
+		"set_run_result":        {"type": "set_run_result", "name": "R", "value": "@contact.name @fields.x @urns.tel"},
+		"enter_flow":            {"type": "enter_flow", "flow": map[string]any{"uuid": uuidOf(kFlow, 2), "name": "F2"}},
+		"open_ticket":           {"type": "open_ticket", "topic": map[string]any{"uuid": defTopicUUID, "name": "Weather"}, "body": "help", "result_name": "Ticket"},
+		"request_optin":         {"type": "request_optin", "optin": map[string]any{"uuid": defOptinUUID, "name": "Jokes"}},
+		"transfer_airtime":      {"type": "transfer_airtime", "amounts": map[string]any{"RWF": 500}, "result_name": "Reward"},
+	}
+}
+
+func noContactCases() []*DefCase {
+	var out []*DefCase
+	acts := noContactActions()
+	names := make([]string, 0, len(acts))
+	for k := range acts {
+		names = append(names, k)
+	}
+	sort.Strings(names)
+	for _, name := range names {
+		child := defFlow(2, "messaging", []any{defWaitNode(201, 202), defActionNode(202, 0, actionOfType("send_msg"))})
+		fl := defFlow(1, "messaging", []any{defActionNode(101, 102, acts[name]), defWaitNode(102, 103), defActionNode(103, 0, map[string]any{"type": "set_run_result", "name": "Done", "value": "@contact"})})
+		out = append(out, &DefCase{Kind: "definition", Scenario: "no-contact:" + name, Flow: uuidOf(kFlow, 1), Trigger: "manual-no-contact",
+			Ops: []DefOp{{Kind: "msg", Text: "a"}, {Kind: "msg", Text: "b"}},
+			Assets: defAssetsWith([]any{fl, child}, map[string]any{
+				"fields": []any{map[string]any{"uuid": uuidOf(kAct, 1099), "key": "x", "name": "X", "type": "text"}},
+				"topics": []any{map[string]any{"uuid": defTopicUUID, "name": "Weather"}},
+				"optins": []any{map[string]any{"uuid": defOptinUUID, "name": "Jokes", "channel": map[string]any{"uuid": channelUUID, "name": "Twilio"}}},
+			})})
+	}
+	return out
+}
+
 // defCorpus: the hand-written cases of the hunt findings
 func defCorpus() []*DefCase {
 	var out []*DefCase
@@ -546,6 +605,12 @@ func runDefCase(prop string, c *DefCase, res *hx.Result) {
 	if err != nil {
 		res.Fail("harness:definition-contact", input, err.Error())
 		return
+	}
+	if c.Trigger == "manual-no-contact" {
+		contact = nil
+		if c.Opts == nil {
+			eng = gftest.NewEngine() // with email / airtime / classification services, so that those actions get past "no service"
+		}
 	}
 	tb := triggers.NewBuilder(env0, assets.NewFlowReference(assets.FlowUUID(c.Flow), "F"), contact)
 	var trig flows.Trigger
@@ -663,6 +728,7 @@ func defStream(prop string, r *hx.Rand, n int, res *hx.Result) {
 	corpus := defCorpus()
 	if prop == "C05" {
 		corpus = append(corpus, feedbackCorpus()...)
+		corpus = append(corpus, noContactCases()...)
 	}
 	for i, c := range corpus {
 		if prop == "C10" && strings.HasPrefix(c.Scenario, "odd-list") {
